@@ -115,6 +115,8 @@ def lt(op, input, other):
         and not input.qtype.is_floating_point
         and input.qtype == other.qtype
         and torch.equal(input._scale, other._scale)
+        # (torch.equal does not compare dtypes: the values of Tensors of different float dtypes are rounded differently)
+        and input.dtype == other.dtype
     ):
         return op(input._data, other._data)
     return qfallback(op, input, other)
